@@ -91,6 +91,11 @@ def scenarios(tier):
                     "unpacked_array_other_shape", "param_removed", "param_added", "fixed_type_changed"):
         out.append(dict(kind="foreign", lengths={"b": 2}, rep_max=2, fmt="res", delete=False,
                         keep=["true", 0], variant=variant, budget=[1, 0, 1], torn="coarse", calls="all"))
+    # restart with a float parameter changed by an amount a tolerance-based comparison would not see
+    out.append(dict(kind="foreign", lengths={"b": 2}, rep_max=2, fmt="res", delete=False, keep=["true", 0],
+                    variant="fixed_float_close_changed", budget=[1, 0, 1], torn="coarse", calls="all"))
+    out.append(dict(kind="foreign", lengths={"d": 2}, rep_max=2, fmt="res", delete=False, keep=["true", 0],
+                    variant="unpacked_float_close_changed", budget=[1, 0, 1], torn="coarse", calls="all"))
     # restart with the SAME parameters, given to the restarted runner in another insertion order
     # (what a restart in a fresh process with another string-hash seed can produce on its own)
     for no_unpack in (False, True):
@@ -106,8 +111,12 @@ def grid_for(sc, run_no):
     if sc.get("no_unpack"):
         unpacked = []           # the list-valued parameter stays one fixed parameter
     rep_max = sc["rep_max"]
+    if sc["variant"] == "fixed_float_close_changed":
+        pd["nv"] = 1e-9 if run_no == 0 else 3e-9          # |difference| < 1e-8: "close" for np.allclose
     if run_no >= 1:
         v = sc["variant"]
+        if v == "unpacked_float_close_changed":
+            pd["d"] = [1e-9, 4e-9]                          # was [1e-9, 2e-9]
         if v == "same_other_insertion_order":
             pd = dict(reversed(list(pd.items())))
             unpacked = unpacked[::-1]
@@ -393,9 +402,9 @@ def judge_foreign(sc, S, chk, case, status, dur, before_img, runner, idxs, nvar,
         return ("foreign", v, "resumed")
     changed = []
     for i in have:
-        if v in ("fixed_changed", "param_removed", "param_added", "fixed_type_changed"):
+        if v in ("fixed_changed", "param_removed", "param_added", "fixed_type_changed", "fixed_float_close_changed"):
             changed.append(i)
-        elif v == "unpacked_value_changed" and i == 1:
+        elif v in ("unpacked_value_changed", "unpacked_float_close_changed") and i == 1:
             changed.append(i)
         elif v == "unpacked_array_other_shape":
             changed.append(i)
